@@ -479,7 +479,9 @@ func runC10(c *Ctx) {
 				continue
 			}
 			nuse++
-			if !hasFact(gg.FactsAt(n), func(f Fact) bool { return cmpMatch(f, token.NEQ, func(v ssa.Value) bool { return v == size }, isZeroConst) }) {
+			if !hasFact(gg.FactsAt(n), func(f Fact) bool {
+				return cmpMatch(f, token.NEQ, func(v ssa.Value) bool { return v == size }, isZeroConst)
+			}) {
 				bad = "the tag payload is dereferenced on a path on which size != 0 has not been tested: an absent tag (0, 0) is read as if it were present"
 			}
 		}
@@ -487,7 +489,9 @@ func runC10(c *Ctx) {
 		for n, in := range gg.Ins {
 			if st, ok := in.(*ssa.Store); ok && st.Val == payload {
 				nuse++
-				if !hasFact(gg.FactsAt(n), func(f Fact) bool { return cmpMatch(f, token.NEQ, func(v ssa.Value) bool { return v == size }, isZeroConst) }) {
+				if !hasFact(gg.FactsAt(n), func(f Fact) bool {
+					return cmpMatch(f, token.NEQ, func(v ssa.Value) bool { return v == size }, isZeroConst)
+				}) {
 					bad = "the tag payload is used on a path on which size != 0 has not been tested"
 				}
 			}
@@ -546,7 +550,9 @@ func runC10(c *Ctx) {
 		for n, in := range ge.Ins {
 			if call, ok := in.(*ssa.Call); ok && call.Common().Value == ssa.Value(visP) {
 				nv++
-				if !hasFact(ge.FactsAt(n), func(f Fact) bool { return cmpMatch(f, token.NEQ, func(v ssa.Value) bool { return isLoadOfField(v, secSizeF) }, isZeroConst) }) {
+				if !hasFact(ge.FactsAt(n), func(f Fact) bool {
+					return cmpMatch(f, token.NEQ, func(v ssa.Value) bool { return isLoadOfField(v, secSizeF) }, isZeroConst)
+				}) {
 					bad = "the visitor is called for sections whose size has not been tested != 0"
 				}
 				// the size passed is that section's size
@@ -783,7 +789,6 @@ func provenance(m *Module, v ssa.Value, infoData *ssa.Global, findTag *ssa.Funct
 	}
 	return
 }
-
 
 // matchAdd: e is an addition one of whose operands satisfies isA; returns the other.
 func matchAdd(e ssa.Value, isA func(ssa.Value) bool) (ssa.Value, bool) {
